@@ -22,6 +22,7 @@ EvOK(ev) ==
   CASE ev.k = "dt"  -> ev.rem = GenericRemaining(ev.readable)
     [] ev.k = "dtlive" -> GenericRemainingLive(ev.answers, ev.rem)
     [] ev.k = "dtlife" -> ev.isopen /\ ev.allnil /\ ev.remsame
+    [] ev.k = "regconc" -> ev.lost = 0     \* hooks registered at the same time by different goroutines: every one is in force
     [] ev.k = "reg" -> /\ ev.ret = RegistryResult(ev.registered, ev.cbret)
                        /\ ev.registered => ev.argok
                        /\ ~ev.panic
